@@ -245,9 +245,49 @@ def root(x: f32[{2 * N + 4}], y: f32[{N}]):
     return GenProgram(HEADER + text, "root", [], [], {"template": "par_alias"})
 
 
+def t_par_positions(rng):
+    """a par loop (racy: neighbour dependence, common cell, reduction into one cell; or race-free)
+    at every kind of position the backend's analysis has to walk to: then- and else-branches, nested
+    ifs, bodies of sequential loops, the else-branch of a callee"""
+    from ..gen_prog import GenProgram, HEADER
+
+    N = rng.choice([4, 6])
+    body = rng.choice(["x[i + 1] = x[i] + 1.0", "x[i] = x[i + 1]", "y[0] = x[i]", "y[0] += x[i]", "x[i] = y[i] * 2.0", "x[i] += 1.0"])
+    loop = f"for i in par(0, {N}):\n{{ind}}    {body}"
+    pos = rng.choice(["else", "else", "then", "else_in_loop", "nested_else", "callee_else", "top"])
+    def at(ind):
+        return loop.replace("{ind}", " " * ind)
+    if pos == "top":
+        inner = "    " + at(4)
+    elif pos == "then":
+        inner = f"    if flag:\n        {at(8)}"
+    elif pos == "else":
+        inner = f"    if flag:\n        y[1] = 0.0\n    else:\n        {at(8)}"
+    elif pos == "else_in_loop":
+        inner = f"    for t in seq(0, 2):\n        if n > 2:\n            y[1] = 0.0\n        else:\n            {at(12)}"
+    elif pos == "nested_else":
+        inner = f"    if flag:\n        y[1] = 0.0\n    else:\n        if n > 2:\n            y[2] = 1.0\n        else:\n            {at(12)}"
+    else:
+        inner = "    sub(n, x, y, flag)"
+    sub = f"""@proc
+def sub(n: size, x: f32[{N + 2}], y: f32[{N + 2}], flag: bool):
+    if flag:
+        y[1] = 0.0
+    else:
+        {at(8)}
+
+""" if pos == "callee_else" else ""
+    text = f"""{sub}@proc
+def root(n: size, x: f32[{N + 2}], y: f32[{N + 2}], flag: bool):
+{inner}
+"""
+    return GenProgram(HEADER + text, "root", ["sub"] if sub else [], [], {"template": "par_positions"})
+
+
 def one(ctx, rng):
     try:
-        gp = t_par_alias(rng) if rng.random() < 0.25 else gen_program(rng, knobs(rng))
+        r_ = rng.random()
+        gp = t_par_alias(rng) if r_ < 0.2 else (t_par_positions(rng) if r_ < 0.4 else gen_program(rng, knobs(rng)))
         mod = load_program(gp.text, ctx.scratch)
     except CaseTimeout:
         raise
